@@ -1318,7 +1318,17 @@ func (x *Exec) loopEnter(st *State, fr *Frame, h *loopHdr) bool {
 	// havoc: cells assigned in the loop body that exist already
 	stored := cellsStoredIn(h.body)
 	var names []string
+	var storedList []*ssa.Alloc
 	for a := range stored {
+		storedList = append(storedList, a)
+	}
+	sort.Slice(storedList, func(i, j int) bool {
+		if storedList[i].Pos() != storedList[j].Pos() {
+			return storedList[i].Pos() < storedList[j].Pos()
+		}
+		return storedList[i].Name() < storedList[j].Name()
+	})
+	for _, a := range storedList {
 		ck := cellKey{A: a, Frame: fr.id}
 		if _, ok := st.cells[ck]; ok {
 			t := a.Type().Underlying().(*types.Pointer).Elem()
